@@ -79,7 +79,9 @@ var alphaCore = []string{
 	"lw t3, 192(zero)\nbnez t3, mid",
 }
 
-const epilogue = "end:\naddi t2, t0, 1\nsw t2, 128(zero)"
+// the epilogue writes a register no template uses, so that the final values of
+// t0..t3 stay observable
+const epilogue = "end:\naddi s11, t0, 1\nsw s11, 128(zero)"
 
 // buildProg renders a body (template indices) with the `mid` label before the
 // last body instruction and the epilogue after it.
